@@ -15,6 +15,6 @@ open(p,'w').write(s.replace(old,new))
 P
 mod=$(echo $file | sed -E 's#^(go/appencryption|go/securememory|server/go)/.*#\1#')
 (cd $wt/$mod && GOWORK=off GOFLAGS=-mod=mod GOPROXY=off go build ./... 2>&1 | head -5) || true
-for p in ${props//,/ }; do
+cp /verif/known_findings.txt /tmp/vr_mut/; for p in ${props//,/ }; do
   VERIF_REPO=$wt VERIF_ROOT=/tmp/vr_mut /verif/bin/asherah-verif check $p 2>&1 | grep -E "^\S+: \[|quick:|KNOWN|SELFTEST|ERR" | cut -c1-260
 done
